@@ -1,7 +1,8 @@
 """C02 — boolean collision tests (structural clauses)."""
 from . import scopes
 from ..core.report import DOMAIN_D
-from ..rules import nesterov, mink, loops, runmin, libccd, unpack, ericson, misc2, unitdir
+from ..rules import nesterov, mink, loops, runmin, libccd, unpack, ericson, misc2, unitdir, frame
+from .common import e2
 
 MODS = ["distance3d.gjk._gjk_jolt", "distance3d.gjk._gjk_libccd", "distance3d.mpr", "distance3d.gjk._gjk_nesterov_accelerated",
         "distance3d.gjk._gjk_nesterov_accelerated_primitives", "distance3d.minkowski"]
@@ -14,7 +15,7 @@ def run(idx, rep, tier):
         "support site (R-MINK; the pre-image arrays v1/v2 do not influence a boolean, so R-PAR is not part of C02), inflation / support agreement and "
         "type dispatch of the Nesterov tests, whose boolean is `distance < tolerance` after subtracting the inflation "
         "(R-INFL, R-DISPATCH, R-DTREE), the libccd simplex refinement keeps in every branch the feature its new direction is computed from (R-DOSIMPLEX), running minima are stored (R-RUNMIN), result-tuple roles (R-TUPLEROLE), iteration caps / exit discipline of all five loops "
-        "(R-LOOP). The delta = 1e-3 L band and agreement on concrete inputs are NOT decided.")
+        "(R-LOOP), frame consistency of the collider methods the tests call (R-FRAME, engine E2). The delta = 1e-3 L band and agreement on concrete inputs are NOT decided.")
     rep.assumptions = DOMAIN_D
     mink.r_mink(idx, rep, modules=MODS, floor=15)
     runmin.r_runmin(idx, rep, ["distance3d.gjk._gjk_jolt"], floor=2)
@@ -29,4 +30,7 @@ def run(idx, rep, tier):
     misc2.r_dupcond(idx, rep, [m.name for m in idx.lib_modules()], floor=3)
     unitdir.r_portaldir(idx, rep)
     nesterov.r_supportsibling(idx, rep)
+    # what the tests ask the colliders for (centre, support points, first vertex) must come back in the world frame: MPR aims its origin ray at
+    # collider.center(), a centre rotated the wrong way lies outside the shape and separated pairs are reported as colliding
+    frame.r_frame(idx, rep, e2(idx), modules={"distance3d.colliders", "distance3d.geometry", "distance3d.mesh", "distance3d.utils"}, floor=20)
     unpack.r_unpack(idx, rep, floor=28)
